@@ -1023,7 +1023,7 @@ func init() {
 			if tier == "thorough" {
 				lens = []int{0, 1, 2, 3, 5, 6, 9, 10, 13}
 			}
-			for _, exit := range []string{"accept", "hold", "abort", "eof", "comment", "panic"} {
+			for _, exit := range []string{"accept", "hold", "abort", "abortg", "eof", "comment", "panic"} {
 				for _, mode := range []string{"emacs", "vi-insert", "vi-command"} {
 					for _, n := range lens {
 						if exit == "eof" && n > 1 {
@@ -1054,7 +1054,7 @@ func init() {
 		},
 		Assumptions: []string{
 			"the terminal's initial mode settings are symbolic (the four flag words, VMIN, VTIME) and live in the ioctl stub; width is symbolic in [3,12] so that wrapped and exactly-filled rows occur; prompt '> '; buffer of lower-case letters of the job's length, cursor anywhere",
-			"exit paths: accept-line, accept-and-hold, abort (Ctrl-C), end-of-file (Ctrl-D on an empty line), insert-comment, a user-registered command that panics (recovered by the caller); in emacs, vi-insert and vi-command",
+			"exit paths: accept-line, accept-and-hold, abort (Ctrl-C, and Ctrl-G: the same command called by another key), end-of-file (Ctrl-D on an empty line), insert-comment, a user-registered command that panics (recovered by the caller); in emacs, vi-insert and vi-command",
 			"terminal output is interpreted by a VT100 model (cursor movement, CR/LF, erase, deferred autowrap, DECSCUSR) fed through the stdout stub; the display engine runs unstubbed; cursor-position queries are answered with the model's true cursor",
 			"'a fresh row below the input' is read literally: column 0 of a row strictly below the last row of prompt + returned text on which nothing is printed (how many blank rows lie in between is not asserted)",
 			"multi-line jobs: buffers of letters and newlines in emacs mode; further lines start on rows of their own under the first; labels carry the shape of the buffer (number of newlines, wraps, row exactly filled)",
